@@ -76,6 +76,9 @@ ObsMem(m) == {[t |-> x.t, port |-> 0, slots |-> x.slots, start |-> x.start, expi
 DbFields == {"towers", "regs", "rcpts", "pend", "inv", "bodies", "proofs"}
 
 
+\* without the slot counts
+NoSlots(mem) == {[t |-> x.t, status |-> x.status, start |-> x.start, expiry |-> x.expiry, pending |-> x.pending,
+                  invalid |-> x.invalid] : x \in mem}
 \* without the statuses
 Plain(mem) == {[t |-> x.t, slots |-> x.slots, start |-> x.start, expiry |-> x.expiry, pending |-> x.pending,
                 invalid |-> x.invalid] : x \in mem}
@@ -85,7 +88,7 @@ Ev == Rec[ln]
 T(prop, what) == {<<ln, prop, what, mon.name>>}
 
 PropOfDev(d) == CASE d = "S12" -> "C05" [] d = "S13" -> "C13" [] d = "S14" -> "C14" [] d = "S15" -> "C05"
-                  [] d = "S18" -> "C14" [] d = "S19" -> "C13" [] OTHER -> "C18"
+                  [] d = "S18" -> "C14" [] d = "S19" -> "C13" [] d = "S20" -> "C13" [] d = "S21" -> "C05" [] OTHER -> "C18"
 
 Mon0 == [name |-> "-", cfg |-> [max_retry |-> 3, auto_retry |-> 2, max_interval |-> 1],
          devs |-> {}, flagged |-> {}, skip |-> FALSE,
@@ -141,6 +144,8 @@ ObsFail1(C, e, odb) ==
 ObsFail2(C2, e, omem) ==
     LET tg == IF ~e.memok THEN T("C14", "Survives.listtowers_not_answered")
               ELSE IF \A s \in C2 : ~(s.alive /\ ~s.poisoned) THEN T("C14", "conf.mem.answered_unexpectedly")
+              \* only the slot counts differ: what is reported is not what is stored - the data layer's business (C18)
+              ELSE IF \E s \in C2 : NoSlots(s.st.mem) = NoSlots(omem) THEN T("C18", "conf.mem.slots")
               ELSE IF \E s \in C2 : Plain(s.st.mem) = Plain(omem) THEN T("C13", "conf.mem.status")
               ELSE T("C05", "conf.mem")
         F == {[s EXCEPT !.st.mem = IF ~e.memok THEN @ ELSE omem, !.poisoned = (~e.memok /\ s.alive)] : s \in C2}
@@ -241,8 +246,10 @@ R(e, C) ==
                [Touch(mon, {e.t}, e.ts) EXCEPT !.downAt[e.t] = IF e.up THEN -1 ELSE e.ts])
       [] e.ev = "mode" ->
            \* what the tower is set to answer from now on
-           Res(bel, {}, [Touch(mon, {e.t}, e.ts) EXCEPT !.bad[e.t] = IF e.cls = <<"accept">> THEN @ \ {e.ep}
-                                                                       ELSE @ \cup {IF e.queued > 0 THEN "queue" ELSE e.ep}])
+           \* (cls = what it answers by default on endpoint ep, queued = one-off answers still queued for ep)
+           Res(bel, {}, [Touch(mon, {e.t}, e.ts) EXCEPT !.bad[e.t] = (@ \ {e.ep, "q" \o e.ep})
+                                                                       \cup (IF e.cls = <<"accept">> THEN {} ELSE {e.ep})
+                                                                       \cup (IF e.queued > 0 THEN {"q" \o e.ep} ELSE {})])
       [] e.ev = "kill" -> Res({Kill(s) : s \in C}, {}, Touch(mon, Towers, e.ts))
       [] e.ev \in {"obs", "same"} ->
            \* "same": the state was read again and is what the last observation showed
